@@ -1023,3 +1023,25 @@ for _n, _l in (('<std::string::String as std::default::Default>::default', 'Stri
     if _n.startswith('std::'):
         P['core::' + _n[5:]] = _pure(_l)
         P['alloc::' + _n[5:]] = _pure(_l)
+
+
+# pattern primitives (consulted when no exact name matches)
+import re as _re
+
+
+def _try_from_pat(m, cfg, f, args, t):
+    mo = _re.search(r'TryFrom<(\w+)> for (\w+)>::try_from$', f.get('rpath') or f.get('path') or '')
+    if mo and int_info(mo.group(1)) and int_info(mo.group(2)):
+        return narrow(m, cfg, args[0], mo.group(2), ok, lambda: err(TRY_ERR))
+    return NotImplemented
+
+
+def _from_pat(m, cfg, f, args, t):
+    mo = _re.search(r'convert::From<(\w+)> for (\w+)>::from$', f.get('rpath') or f.get('path') or '')
+    if mo and int_info(mo.group(1)) and int_info(mo.group(2)):
+        return args[0]
+    return NotImplemented
+
+
+PATTERN_PRIMS = [(_re.compile(r'.*TryFrom<\w+> for \w+>::try_from$'), _try_from_pat),
+                 (_re.compile(r'.*convert::From<\w+> for \w+>::from$'), _from_pat)]
